@@ -5,9 +5,9 @@ import BigtreeModel.CopyStore
 `fn=<copy|clone|subtree|prune|reader> start=<id> tsep=<x> [q=<x>] [paths=<x,…|-> exact=<0|1> sep=<x>] md=<n>
  hist=<op;op;…|-> T <tree>`
 ops: `<o|r>.P.<v>.<p>` (v.parent = p) · `.D.<v>` (v.parent = None) · `.X.<v>` (del v.children) ·
-`.A.<v>.<xkey>.<val>` (set_attrs) · `.N.<v>.<xname>` (rename); `o` = node of the input tree by
+`.A.<v>.<xkey>.<val>` (set_attrs) · `.N.<v>.<xname>` (rename) · `.G.<v>.<xname>` (`Node(name, parent=v)`); `o` = node of the input tree by
 pre-order id, `r` = node of the returned tree's component by pre-order index at return time.
-→ `ok ret=<r-index|-> orig=<cells> res=<cells|->` | `err:<class> orig=<cells>` (`fn=dag` → `ok dag`);
+→ `ok ret=<r-index|-> orig=<cells> res=<cells|->` | `err:<class> orig=<cells>` (`fn=dag` → `ok dag`, `fn=oracle` → `ok oracle`: cases checked by the model-free oracle only);
 a cell is `<parent>|<children>|<xname>|<attrs sorted by key>`, cells joined by `;`. -/
 namespace Drv.C07
 open Proto CopyStore
@@ -32,12 +32,13 @@ def storeOf (t : Tree) : Store := ⟨cellsFix none t⟩
 def sortAttrs (a : Attrs) : Attrs := a.mergeSort fun x y => decide (x.1 ≤ y.1)
 
 structure Ctx where
-  n0 : Nat
-  res : List Nat
+  opool : List Nat   -- nodes of the input side: the input's nodes by pre-order id, then nodes grown on that side
+  rpool : List Nat   -- nodes of the result side: the returned component in pre-order, then nodes grown there
 
 def Ctx.ref (c : Ctx) (i : Nat) : String :=
-  if i < c.n0 then "o" ++ toString i
-  else match c.res.idxOf? i with
+  match c.opool.idxOf? i with
+  | some j => "o" ++ toString j
+  | none => match c.rpool.idxOf? i with
     | some j => "r" ++ toString j
     | none => "?"
 
@@ -50,32 +51,51 @@ def showCells (c : Ctx) (s : Store) (ids : List Nat) : String :=
   if ids.isEmpty then "-" else
   ";".intercalate (ids.map fun i => match s.cell? i with | some x => showCell c x | none => "?")
 
-def parseOp (c : Ctx) (tok : String) : Option (Option Op) :=
-  -- `some none` = an operation the model ignores (index out of range on that side)
+/-- one history token applied to (store, pools); an index beyond the pool of its side is skipped
+    (on both sides of the tie) -/
+def applyTok (st : Store × Ctx) (tok : String) : Option (Store × Ctx) :=
+  let (s, c) := st
   match tok.splitOn "." with
   | side :: kind :: rest => do
+    let isO ← if side == "o" then some true else if side == "r" then some false else none
+    let pool := if isO then c.opool else c.rpool
     let node : String → Option (Option Nat) := fun t => do
       let k ← t.toNat?
-      if side == "o" then pure (if k < c.n0 then some k else none)
-      else if side == "r" then pure c.res[k]?
-      else none
+      pure pool[k]?
     match kind, rest with
     | "P", [v, p] => do
       let v ← node v; let p ← node p
-      pure (do let v ← v; let p ← p; pure (Op.setParent v (some p)))
-    | "D", [v] => do let v ← node v; pure (v.map fun v => Op.setParent v none)
-    | "X", [v] => do let v ← node v; pure (v.map Op.delChildren)
+      pure (match v, p with
+        | some v, some p => (step s (.setParent v (some p)), c)
+        | _, _ => (s, c))
+    | "D", [v] => do
+      let v ← node v
+      pure (match v with | some v => (step s (.setParent v none), c) | none => (s, c))
+    | "X", [v] => do
+      let v ← node v
+      pure (match v with | some v => (step s (.delChildren v), c) | none => (s, c))
     | "A", [v, k, x] => do
       let v ← node v; let k ← unhex k; let x ← parseVal x
-      pure (v.map fun v => Op.setAttr v k x)
-    | "N", [v, nm] => do let v ← node v; let nm ← unhex nm; pure (v.map fun v => Op.setName v nm)
+      pure (match v with | some v => (step s (.setAttr v k x), c) | none => (s, c))
+    | "N", [v, nm] => do
+      let v ← node v; let nm ← unhex nm
+      pure (match v with | some v => (step s (.setName v nm), c) | none => (s, c))
+    | "G", [v, nm] => do
+      -- `Node(nm, parent=v)`: the new node joins the pool of its side when the attachment succeeds
+      let v ← node v; let nm ← unhex nm
+      pure (match v with
+        | none => (s, c)
+        | some v =>
+          let s' := grow s v nm
+          let id := s.n
+          if s'.parentOf id == some v then
+            (s', if isO then { c with opool := c.opool ++ [id] } else { c with rpool := c.rpool ++ [id] })
+          else (s, c))
     | _, _ => none
   | _ => none
 
-def parseHist (c : Ctx) (s : String) : Option (List Op) :=
-  if s == "-" then some [] else do
-    let ops ← (s.splitOn ";").mapM (parseOp c)
-    pure (ops.filterMap id)
+def runHist (s : Store) (c : Ctx) (hist : String) : Option (Store × Ctx) :=
+  if hist == "-" then some (s, c) else (hist.splitOn ";").foldlM applyTok (s, c)
 
 def errName : Helper.Err → String
   | .notFound => "NotFoundError"
@@ -87,6 +107,7 @@ def handle (toks : List String) : String :=
     let fn ← kv toks "fn"
     -- DAG functions are monitored by the model-free oracle only (the store models trees)
     if fn == "dag" then return "ok dag"
+    if fn == "oracle" then return "ok oracle"
     let start ← (← kv toks "start").toNat?
     let tsep ← unhex (← kv toks "tsep")
     let hist ← kv toks "hist"
@@ -113,17 +134,15 @@ def handle (toks : List String) : String :=
       | _ => none
     match ← call with
     | .error e =>
-      let c : Ctx := ⟨n0, []⟩
-      let ops ← parseHist c hist
-      pure ("err:" ++ errName e ++ " orig=" ++ showCells c (run s0 ops) origIds)
+      let (s2, c) ← runHist s0 ⟨origIds, []⟩ hist
+      pure ("err:" ++ errName e ++ " orig=" ++ showCells c s2 c.opool)
     | .ok (s1, ret) =>
       let res : List Nat := match ret with
         | none => []
         | some w => treeIds (toTree s1 s1.n (rootOf s1 s1.n w))
-      let c : Ctx := ⟨n0, res⟩
-      let ops ← parseHist c hist
-      let s2 := run s1 ops
-      pure ("ok ret=" ++ (match ret with | none => "-" | some w => c.ref w)
-        ++ " orig=" ++ showCells c s2 origIds ++ " res=" ++ showCells c s2 res)
+      let c0 : Ctx := ⟨origIds, res⟩
+      let (s2, c) ← runHist s1 c0 hist
+      pure ("ok ret=" ++ (match ret with | none => "-" | some w => c0.ref w)
+        ++ " orig=" ++ showCells c s2 c.opool ++ " res=" ++ showCells c s2 c.rpool)
   r.getD "bad-op"
 end Drv.C07
